@@ -175,9 +175,14 @@ package flow
 // (onRuleUpdate) is under a separate contract.
 //@ func onRuleUpdate(rawResRulesMap) err
 //@   assumed
+//@   modifies heap
 //@ func LoadRules(rules) (changed, err)
 //@   props C13
 //@   panics never
+//@   sets gFlowLoadN = old(gFlowLoadN) + 1
+//@   sets gFlowLoadArg = rules
+//@   ensures[recorded] gFlowLoadN == old(gFlowLoadN) + 1 && gFlowLoadArg == rules
+//@   modifies heap, gFlowLoadN, gFlowLoadArg
 //@   witness n = len(rules)
 //@   replay loadrules_nil
 
@@ -216,3 +221,12 @@ package flow
 //@     invariant[no-equal-yet] equalIdx == 0 - 1 && (forall j Int :: 0 <= j && j < #i ==> !eqRule(oldResTcs[j].rule, r))
 //@     invariant[stat-idx] 0 - 1 <= reuseStatIdx && reuseStatIdx < #i && (reuseStatIdx >= 0 ==> statReusable(oldResTcs[reuseStatIdx].rule, r) && (forall j Int :: 0 <= j && j < reuseStatIdx ==> !statReusable(oldResTcs[j].rule, r)))
 //@     invariant[no-stat-yet] reuseStatIdx < 0 ==> (forall j Int :: 0 <= j && j < #i ==> !statReusable(oldResTcs[j].rule, r))
+
+// ---- loader entry points as seen by the datasource layer (C18): calls are recorded
+//@ ghost var gFlowLoadN Int
+//@ ghost var gFlowLoadArg Slice
+//@ ghost var gFlowClearN Int
+//@ func ClearRules() err
+//@   assumed
+//@   ensures gFlowClearN == old(gFlowClearN) + 1
+//@   modifies gFlowClearN
